@@ -19,14 +19,17 @@ var mslLangComment = regexp.MustCompile(`(?m)^//\s*language:\s*metal(\d+)\.(\d+)
 func parseMSL(src string) *Program {
 	prog := &Program{Dialect: MSL, lc: layoutCache{}, structTypes: map[*StructDef]*Type{}, localSize: [3]uint32{1, 1, 1}}
 	st := &mslState{
-		funcInfo:    map[*Function]*mslFuncInfo{},
-		paramInfo:   map[*Param]*mslParamInfo{},
-		memberAttrs: map[string][]mslAttr{},
-		userFuncs:   map[string]bool{},
-		ptrs:        map[mslPtrKey]*Type{},
-		zeroConv:    map[*Type]bool{},
-		templates:   map[string][]*mslTemplate{},
-		structPos:   map[string]Pos{},
+		funcInfo:      map[*Function]*mslFuncInfo{},
+		paramInfo:     map[*Param]*mslParamInfo{},
+		memberAttrs:   map[string][]mslAttr{},
+		userFuncs:     map[string]bool{},
+		ptrs:          map[mslPtrKey]*Type{},
+		zeroConv:      map[*Type]bool{},
+		templates:     map[string][]*mslTemplate{},
+		structPos:     map[string]Pos{},
+		opaques:       map[string]*Type{},
+		skipped:       map[string]*UnsupportedError{},
+		unsupportedFn: map[*Function]*UnsupportedError{},
 	}
 	prog.msl = st
 	if m := mslLangComment.FindStringSubmatch(src); m != nil {
@@ -118,6 +121,8 @@ type ArgInfo struct {
 	User      string   // name of [[user(name)]]; "" if absent
 	Builtin   string   // attribute naming a built-in input; "" if none
 	BlockName string   // key of this argument in Blocks() / RunConfig.BlockByName (= Name) for buffer arguments
+	Texture   int      // n of [[texture(n)]]; -1 if absent
+	Sampler   int      // n of [[sampler(n)]]; -1 if absent
 }
 
 // EntryInfo describes an MSL entry point.
@@ -125,6 +130,10 @@ type EntryInfo struct {
 	Name  string
 	Stage string // "kernel", "vertex", "fragment"
 	Args  []ArgInfo
+	// Unsupported is non-empty when the function (or a function it calls)
+	// uses a valid construct that is not modelled: it cannot be run; Args is
+	// empty when even its declaration was skipped.
+	Unsupported string
 }
 
 // EntryPoints lists the entry points of an MSL program in source order (nil
@@ -142,14 +151,25 @@ func (p *Program) EntryPoints() []EntryInfo {
 				t = t.Elem
 			}
 			ai := ArgInfo{Name: a.Param.Name, Type: mslTypeString(t), Ref: a.Info.Ref, Ptr: a.Info.Ptr, Const: a.Info.ConstTo && (a.Info.Ref || a.Info.Ptr),
-				Buffer: -1, User: a.User, Builtin: a.Builtin}
+				Buffer: -1, Texture: -1, Sampler: -1, User: a.User, Builtin: a.Builtin}
 			if a.Info.Ref || a.Info.Ptr {
 				ai.Space = a.Info.Space
 			}
 			for _, at := range a.Info.Attrs {
 				ai.Attrs = append(ai.Attrs, at.String())
-				if at.Name == "buffer" {
+				switch at.Name {
+				case "buffer":
 					ai.Buffer = a.Index
+				case "texture", "sampler":
+					if len(at.Args) == 1 {
+						if n, err := strconv.Atoi(at.Args[0]); err == nil {
+							if at.Name == "texture" {
+								ai.Texture = n
+							} else {
+								ai.Sampler = n
+							}
+						}
+					}
 				}
 			}
 			if a.Kind == argBuffer {
@@ -157,9 +177,48 @@ func (p *Program) EntryPoints() []EntryInfo {
 			}
 			ei.Args = append(ei.Args, ai)
 		}
+		if ue := p.mslUnsupportedReach(e.Fn); ue != nil {
+			ei.Unsupported = ue.What
+		}
 		out = append(out, ei)
 	}
+	for _, sk := range p.msl.skippedList {
+		if sk.Stage != "" {
+			out = append(out, EntryInfo{Name: sk.Name, Stage: sk.Stage, Unsupported: sk.Err.What})
+		}
+	}
 	return out
+}
+
+// mslUnsupportedReach returns the reason why fn cannot be executed, if it or
+// a function reachable from it was marked unsupported.
+func (p *Program) mslUnsupportedReach(fn *Function) *UnsupportedError {
+	seen := map[*Function]bool{}
+	var visit func(f *Function) *UnsupportedError
+	visit = func(f *Function) *UnsupportedError {
+		if seen[f] {
+			return nil
+		}
+		seen[f] = true
+		if ue := p.msl.unsupportedFn[f]; ue != nil {
+			return ue
+		}
+		cs := make([]*Function, 0, len(f.callees))
+		for g := range f.callees {
+			cs = append(cs, g)
+		}
+		sort.Slice(cs, func(i, j int) bool {
+			a, b := cs[i].Pos, cs[j].Pos
+			return a.Line < b.Line || (a.Line == b.Line && a.Col < b.Col)
+		})
+		for _, g := range cs {
+			if ue := visit(g); ue != nil {
+				return ue
+			}
+		}
+		return nil
+	}
+	return visit(fn)
 }
 
 func mslMemberInfo(name string, t *Type, off int, l *TypeLayout) MemberInfo {
@@ -258,10 +317,18 @@ func (p *Program) mslRun(cfg RunConfig) (res *RunResult, err error) {
 		}
 	}
 	if entry == nil {
+		for _, sk := range st.skippedList {
+			if sk.Stage == "kernel" && (cfg.Entry == "" || cfg.Entry == sk.Name) {
+				return nil, sk.Err
+			}
+		}
 		if cfg.Entry == "" {
 			return nil, &UnsupportedError{Dialect: MSL, What: "Run of an MSL text without a kernel function"}
 		}
 		return nil, fmt.Errorf("ctext: no kernel %q", cfg.Entry)
+	}
+	if ue := p.mslUnsupportedReach(entry.Fn); ue != nil {
+		return nil, ue
 	}
 	ls := cfg.LocalSize
 	for i := range ls {
